@@ -34,6 +34,11 @@ proof against a reference map needs:
            removeParam(p->name)): it is not read again after the sequence has moved or destroyed elements, and it is not
            captured by reference in the predicate of an element-moving algorithm unless the key type is trivially
            copyable (then a move is a copy and, keys being unique, the comparisons stay right).
+Key equality: a lookup that compares keys with memcmp over sizeof(KEY) is key equality for integer / pointer keys, a violation for
+floating-point keys (+0.0 / -0.0, NaN), undecided for class types (FlatMap<double,int> is instantiated for this).  The query status
+may be a bool or an integer: set by a non-zero constant, or raised by ++ only when it cannot wrap (64-bit) - an unsaturated
+narrower counter is a violation.  setParam: `data = Any(); data = v` (release, then build) is recognised wrong; other shapes
+with several assignments are undecided.
 Lookup predicates: `a.compare(b) == 0` is `a == b`; a strncmp over the length of one operand is a prefix comparison
 (recognised wrong); predicates built from other calls are undecided.  setParam leaves the query flag of the parameter
 it writes alone.
@@ -67,6 +72,10 @@ PARAM = PO + '::Param'
 ANY = 'rkcommon::utility::Any'
 THIS = ('this',)
 
+INT_WIDTH = {'bool': 1, 'unsigned char': 8, 'signed char': 8, 'char': 8, 'unsigned short': 16, 'short': 16, 'unsigned int': 32, 'int': 32,
+             'unsigned long': 64, 'long': 64, 'unsigned long long': 64, 'long long': 64}
+INTEGRAL_KEYS = set(INT_WIDTH) | {'wchar_t', 'char16_t', 'char32_t'}
+FLOAT_KEYS = {'float', 'double', 'long double'}
 APPEND = {'push_back', 'emplace_back'}
 INSERT = {'insert', 'emplace'}
 ORDER_OK = {'clear', 'reserve', 'shrink_to_fit', 'pop_back', 'erase'}
@@ -166,6 +175,7 @@ class Seq:
 
     def __init__(self, tu, se, rec, S):
         self.tu, self.se, self.rec, self.S = tu, se, rec, S
+        self.bytewise = set()      # (x, y, length) of lookup predicates written as memcmp(&x, &y, length) == 0
 
     def match_lookup(self, nf):
         """(key expression over ('lparam',0), searched key) if nf is find_if(S.begin(), S.end(), [key(elem) == K])"""
@@ -183,6 +193,14 @@ class Seq:
         for x, y in ((a, b), (b, a)):
             if y == ('const', 0) and isinstance(x, tuple) and x[0] == 'call' and x[1] == 'std::basic_string::compare' and len(x) == 4:
                 a, b = x[2], x[3]
+                break
+        # memcmp(&x, &y, sizeof(KEY)) == 0 compares the object representations of x and y; whether that is key equality depends
+        # on the key type and is judged once per instantiation (check_flatmap); structurally it is a comparison of x with y
+        for x, y in ((a, b), (b, a)):
+            if y == ('const', 0) and isinstance(x, tuple) and x[0] == 'call' and x[1] in ('memcmp', 'std::memcmp') and len(x) == 6 \
+                    and all(isinstance(z, tuple) and z[0] == 'addr' for z in x[3:5]):
+                self.bytewise.add((x[3][1], x[4][1], x[5]))
+                a, b = x[3][1], x[4][1]
                 break
         la, lb = contains(a, ('lparam', 0)), contains(b, ('lparam', 0))
         if la and not lb:
@@ -802,6 +820,25 @@ def check_flatmap(ctx, tu, tag=''):
                     ctx.undecided(R3, inst, why, loc)
             else:
                 ctx.ok(R3, inst, sig_show(summary_sig(se, seq, f))[:300], loc)
+        # ---- byte-wise key comparison: equality of the object representation is key equality only for some key types
+        if seq.bytewise:
+            kt = (r.get('targs') or [{}])[0]
+            inst = '%s lookup predicate%s' % (short(r['type']), tag)
+            lf = byname.get('lookup', fns)[0]
+            full = all(isinstance(n_, tuple) and ((n_[0] == 'sizeof' and n_[2] == kt.get('size')) or n_ == ('const', kt.get('size'))) for _, _, n_ in seq.bytewise)
+            n3 += 1
+            if not full:
+                ctx.undecided(R3, inst, 'keys are compared with memcmp over a length that is not sizeof(KEY)', tu.fn_loc(lf))
+            elif kt.get('t') in INTEGRAL_KEYS or str(kt.get('t', '')).endswith('*'):
+                ctx.ok(R3, inst, 'keys of type %s are compared as raw bytes: for an integer / pointer type that is operator==' % kt.get('t'), tu.fn_loc(lf))
+            elif kt.get('t') in FLOAT_KEYS:
+                ctx.violation(R3, inst, 'the lookup compares keys of type %s with memcmp over their bytes: that is not operator== for a floating-point key '
+                              '(+0.0 == -0.0 but the bytes differ; a NaN equals itself bytewise): a key written as 0.0 is not found as -0.0 and is '
+                              'stored a second time, while erase() still compares with operator==' % kt.get('t'), tu.fn_loc(lf),
+                              key='%s|%s|%s|lookup-bytewise-comparison' % (R3, file, pattern_name(tu, lf)))
+            else:
+                ctx.undecided(R3, inst, 'keys of type %s are compared as raw bytes; whether that equals its operator== (padding, user-defined '
+                              'comparison) is not decided' % kt.get('t'), tu.fn_loc(lf))
         # ---- R-C10-4 siblings
         groups = {}
         for f in fns:
@@ -852,12 +889,18 @@ def check_paramobj(ctx, tu, tag=''):
     S = ('field', THIS, vf[0]['name'])
     seq = Seq(tu, se, r, S)
     anyf = [f for f in pr['fields'] if f['ct'] == ANY]
-    boolf = [f for f in pr['fields'] if f['ct'] == 'bool']
+    boolf = [f for f in pr['fields'] if f['ct'] in INT_WIDTH]
     strf = [f for f in pr['fields'] if f['ct'].startswith('std::basic_string<')]
-    if len(anyf) != 1 or len(boolf) != 1 or len(strf) != 1:
-        ctx.broken('R-C10-5: %s is expected to have one Any, one bool and one string member' % PARAM)
+    if len(anyf) != 1 or len(strf) != 1 or not boolf:
+        ctx.broken('R-C10-5: %s is expected to have one Any, one string and a bool / integer query-status member' % PARAM)
+        return dict(n5=0, counts=dict(insert=0, insert_ok=0, fn=0, fn_ok=0))
+    if len(boolf) != 1:
+        ctx.undecided(R5, 'ParameterizedObject::Param' + tag, 'cannot tell which of the members %s is the query status' % [f['name'] for f in boolf],
+                      tu.fn_file([f for f in tu.functions.values() if f.get('recid') == r['id']][0]))
         return dict(n5=0, counts=dict(insert=0, insert_ok=0, fn=0, fn_ok=0))
     DATA, QUERY, NAME = anyf[0]['name'], boolf[0]['name'], strf[0]['name']
+    QWIDTH = INT_WIDTH[boolf[0]['ct']]
+    QTYPE = boolf[0]['ct']
     keyexpr0 = ('field', ('deref', ('lparam', 0)), NAME)
     fns = [f for f in tu.functions.values() if f.get('recid') == r['id'] and not f['dep'] and tu.cfg(f) is not None
            and not f.get('implicit') and not f.get('ctor') and not f.get('dtor')]
@@ -1052,10 +1095,32 @@ def check_paramobj(ctx, tu, tag=''):
                     probs.append(('type-test-other-type', 'getParam<%s> tests `%s`' % (T, show(unver(wrong_is[0])))))
                 if other_stores:
                     und.append(('other-store', 'getParam writes `%s`' % show(other_stores[0].nf)))
-                if nonnull and typed:
+                qincs = [ev for ev in p.events if ev.kind == 'mutate' and ev.nf == qplace and ev.how in ('++', 'operator++')]
+                qother = [ev for ev in p.events if ev.kind == 'mutate' and ev.nf == qplace and ev not in qincs]
+                if qother:
+                    und.append(('query-update', '`%s` is updated by `%s`' % (QUERY, tu.show(qother[0].node))))
+                if qincs and not (nonnull and typed):
+                    why_ = 'the parameter may be null' if not nonnull else 'its stored type was not tested to be exactly %s' % T
+                    probs.append(('query-set-unguarded', '`%s` is raised on a path where %s' % (QUERY, why_)))
+                if nonnull and typed and qincs and not qstores:
+                    # the status is a counter raised by one: it reads as "queried" afterwards only if it cannot wrap to zero
+                    bounded = any(contains(unver(c), qplace) and unver(c)[0] in ('lt', 'eq') for c, pol, _ in p.conds)
+                    if QWIDTH >= 64:
+                        pass          # 2^64 reads between two resets are not a history
+                    elif bounded:
+                        und.append(('query-counter', '`%s` is raised under a test of its own value that is not modelled' % QUERY))
+                    else:
+                        probs.append(('query-counter-wraps',
+                                      'a successful read raises `%s` with `%s`, an unsaturated %d-bit counter (%s): after 2^%d successful reads without a '
+                                      'reset it is 0 again and the parameter reads as not queried, although it was read and the status was not reset'
+                                      % (QUERY, tu.show(qincs[0].node), QWIDTH, QTYPE, QWIDTH)))
+                elif nonnull and typed:
                     already = p.cond_of(qplace) is True       # the path has just tested that the flag is set
-                    if not (already and not qstores) and (len(qstores) != 1 or unver(qstores[0].value) != ('const', 1)):
+                    okval = len(qstores) == 1 and isinstance(unver(qstores[0].value), tuple) and unver(qstores[0].value)[0] == 'const' \
+                        and unver(qstores[0].value)[1] != 0 and (QWIDTH == 1 or unver(qstores[0].value)[1] % (1 << QWIDTH) != 0)
+                    if not (already and not qstores) and not okval:
                         probs.append(('query-not-set', 'a successful typed read does not set `%s = true`' % QUERY))
+                if nonnull and typed:
                     if rv != get_t:
                         (und if rv is None or has_unknown(rv) else probs).append(
                             ('wrong-result', 'a successful typed read returns `%s` instead of data.get<%s>()' % (show(rv) if rv else p.term[0], T)))
@@ -1108,10 +1173,19 @@ def check_paramobj(ctx, tu, tag=''):
                             for e2 in q.events:
                                 if e2.kind == 'call' and base_name(e2.how or '') == ANY + '::operator=' and e2.place is not None:
                                     assigns.append((e2.place, unver(e2.value[0]) if e2.value else None))
+                if len(assigns) == 2 and assigns[0][0] == assigns[1][0] == ('field', target, DATA) and assigns[0][1] == ('construct', ANY) \
+                        and assigns[1][1] in (p1, ('construct', ANY, p1)):
+                    probs.append(('value-released-before-rebuilt',
+                                  'the stored value is released first (`%s = Any()`) and only then the new one is built and assigned: if building the new value '
+                                  'throws, or the argument refers to the stored value itself, the previously written value is lost (Any::operator=(T) '
+                                  'alone builds the new value before it lets go of the old one)' % DATA))
+                    continue
                 if len(assigns) != 1:
-                    (und if und else probs).append(('no-single-store', 'setParam performs %d assignment(s) to a parameter value, expected one' % len(assigns)))
+                    und.append(('no-single-store', 'setParam performs %d assignment(s) to a parameter value; the form is not recognised' % len(assigns)))
                     continue
                 place, val = assigns[0]
+                if val == ('construct', ANY, p1):
+                    val = p1          # data = Any(value): the same value
                 if place != ('field', target, DATA):
                     probs.append(('store-other-param', 'the value is stored into `%s` instead of the `%s` of the parameter found-or-added under the name' % (show(place), DATA)))
                 if val != p1:
